@@ -83,6 +83,8 @@ def resolve(op, st):
     if k == "ts":
         idx = [i for i in op[1] if i < n]
         return ["ts", [rows[i][0] for i in idx], op[2]]
+    if k == "ts1":
+        return ["ts1", rows[op[1] % n][0], op[2]]
     if k == "dr":
         return ["dr", rows[op[1] % n][0]]
     return op
@@ -136,6 +138,8 @@ def spec_apply(st, op):
         if len(set(keep_rows)) != len(keep_rows):
             raise SpecSkip("duplicate sequences")
         return out([[rows[r][0], "".join(rows[r][1][c] for c in keep_cols)] for r in keep_rows])
+    if k == "ts1":        # one sequence named by a plain str
+        return spec_apply(st, ["ts", [op[1]], op[2]])
     if k == "ts":
         names, neg = op[1], op[2]
         d = dict(map(tuple, rows))
@@ -248,6 +252,8 @@ def real_apply(x, op, st):
         return x.take_positions(list(op[1]), negate=True) if op[2] else x.take_positions(list(op[1]))
     if k == "ts":
         return x.take_seqs(list(op[1]), negate=True) if op[2] else x.take_seqs(list(op[1]))
+    if k == "ts1":
+        return x.take_seqs(op[1], negate=True) if op[2] else x.take_seqs(op[1])
     if k == "gsa":
         return x.get_sub_alignment(seqs=op[1], pos=op[2], negate_seqs=op[3], negate_pos=op[4])
     if k == "og":
@@ -299,6 +305,8 @@ def op_kind(op):
         return "tp(negidx)" if any(c < 0 for c in op[1]) else "tp"
     if k == "ts":
         return "ts(negate)" if op[2] else "ts"
+    if k == "ts1":
+        return "ts(str,negate)" if op[2] else "ts(str)"
     if k == "gsa":
         neg = any(i < 0 for idx in op[1:3] if idx for i in idx)
         return "gsa" + ("(negate)" if op[3] or op[4] else "") + ("(negidx)" if neg else "")
@@ -462,7 +470,8 @@ def contract_history(cname):
 
 
 # ------------------------------------------------------------------------------------------------ generators
-NAMES = ["b", "a", "c", "d"]        # display order differs from sorted order on purpose
+NAMES = ["seq_b", "a", "sq_c", "d"]     # display order differs from sorted order on purpose; one- and many-letter names that
+                                        # share letters (a name given as a plain str must not be read as a set of letters)
 FILLS = {
     "dna": [["ACGTNA", "GRTYAC", "TAYGCA"], ["NTAGCY", "CATGGA", "RCGATT"]],
     "rna": [["ACGUNA", "GRUYAC", "UAYGCA"]],
@@ -496,7 +505,8 @@ def depth1_ops(L, nrows, mt, level):
             ["tp", [], True], ["tp", [0], True], ["tp", [L - 1], True], ["tp", list(range(0, L, 2)), True],
             ["tp", list(range(L)), True]]
     ops += [["ts", list(range(nrows))[::-1], False], ["ts", [0], False], ["ts", [nrows - 1], False],
-            ["ts", [0], True], ["ts", [nrows - 1], True], ["ts", [], False], ["ts", list(range(nrows)), True]]
+            ["ts", [0], True], ["ts", [nrows - 1], True], ["ts", [], False], ["ts", list(range(nrows)), True],
+            ["ts1", 0, False], ["ts1", 0, True], ["ts1", nrows - 1, True], ["ts1", 1, True]]
     ops += [["gsa", None, [0, L - 1], False, False], ["gsa", None, [L - 1], False, True], ["gsa", None, [-1], False, True],
             ["gsa", None, [-1, 0], False, False], ["gsa", [nrows - 1], None, True, False], ["gsa", [-1], None, True, False],
             ["gsa", [-1], None, False, False], ["gsa", [0], [-2, 0], True, True], ["gsa", [-nrows], [-L], True, True],
